@@ -73,6 +73,8 @@ type Runner struct {
 	lateCopyISms   int    // >0: the next InstallSnapshot request that is delivered is delivered a second time that many ms later (latesnapshot macro)
 	lateCopyFrom   string // its sender, once seen
 	lateCopyDue    int64
+	slowAckFrom    string // its answers to AppendEntries / heartbeats take slowAckMs longer (removeverify macro)
+	slowAckMs      int
 	dropAppendAcks bool // acknowledgements of AppendEntries that carry entries are lost (inheritedtail macro)
 	aeBudget       map[string]int // per sender: that many AppendEntries carrying entries get through to each receiver, the rest are lost; absent = no limit (figure8 macro)
 	aeUsed         map[string]int // "from>to" -> requests let through so far
@@ -324,6 +326,11 @@ func (r *Runner) policy(m *sim.Msg, resp bool) sim.Verdict {
 			m.Marked = true
 			r.aeUsed[key] = used + 1
 		}
+	}
+	if r.slowAckFrom != "" && resp && from == r.slowAckFrom && !m.SlowDone && !r.quiet && (m.Kind == sim.KAppend || m.Kind == sim.KHeartbeat) {
+		m.SlowDone = true
+		m.ReadyAt = r.W.Now() + int64(r.slowAckMs)
+		return sim.VHold
 	}
 	if r.dropAppendAcks && resp && !r.quiet {
 		if ae, ok := m.Req.(*raft.AppendEntriesRequest); ok && len(ae.Entries) > 0 {
